@@ -143,11 +143,11 @@ fn silent_peer(own_timeout: u32, silent_timeout: u32, tap: bool, failing: &mut u
                     let to_b = $sim.messages.iter().filter(|m| m.1 == b && big(m.2.len())).count();
                     let to_c = $sim.messages.iter().filter(|m| m.1 == c && big(m.2.len())).count();
                     if to_b > 0 {
-                        fail("C12,C13", failing, format!("{}: own peer timeout {} s: at t={} ({} s after the silent peer's last message, it has been forgotten) a payload for its address is still sent to it ({} datagram(s))", what, own_timeout, t, t - t0, to_b));
+                        fail("C12,C13,C15", failing, format!("{}: own peer timeout {} s: at t={} ({} s after the silent peer's last message, it has been forgotten) a payload for its address is still sent to it ({} datagram(s))", what, own_timeout, t, t - t0, to_b));
                         return;
                     }
                     if tap && to_c != 1 {
-                        fail("C12,C13", failing, format!("{}: own peer timeout {} s: at t={} ({} s after the silent peer's last message, it has been forgotten) a frame for the address learned from it is not flooded to the remaining peer ({} datagrams): a route still points at the forgotten peer", what, own_timeout, t, t - t0, to_c));
+                        fail("C12,C13,C15", failing, format!("{}: own peer timeout {} s: at t={} ({} s after the silent peer's last message, it has been forgotten) a frame for the address learned from it is not flooded to the remaining peer ({} datagrams): a route still points at the forgotten peer", what, own_timeout, t, t - t0, to_c));
                         return;
                     }
                     $sim.messages.clear();
